@@ -368,6 +368,10 @@ def main(argv=None):
             json.dump({"clauses": dict(sorted(clause_status_out.items()))}, f, indent=1)
     elif not args.only:
         for cl, st in ledger["clauses"].items():
+            # the guard is about the clauses a contract *names* (postconditions, lemmas, invariants): the automatically numbered safety obligations
+            # (.safe.div.3, .safe.slice.0 ...) follow the incidental operations of the code and legitimately come and go with harmless edits
+            if ".safe." in cl or ".noexcept" in cl:
+                continue
             if cl not in clause_status and st == "proved":
                 checker_errors.append(f"ledger clause {cl} was not generated on this run (vacuity guard)")
 
